@@ -338,7 +338,19 @@ class Instrument(ast.NodeTransformer):
     # -- scope ids: module=0, each def/lambda/class/genexpr gets a fresh id
     def push(self, kind):
         self.scope_counter += 1
+        self.scope_info = getattr(self, 'scope_info', {})
+        self.scope_info[self.scope_counter] = (kind, self.scope[-1][1])       # scope id -> (kind, enclosing scope id)
         self.scope.append((kind, self.scope_counter))
+
+    def module_level(self, sid):
+        """True for the module scope and for generator expressions nested directly (through other generator expressions) in it"""
+        info = getattr(self, 'scope_info', {})
+        while sid != 0:
+            kind, parent = info.get(sid, (None, None))
+            if kind != 'genexpr':
+                return False
+            sid = parent
+        return True
 
     def pop(self):
         self.scope.pop()
@@ -563,7 +575,9 @@ class Instrument(ast.NodeTransformer):
                                  call('T', const(defsite), ast.Name(node.name, ast.Load())))]
 
     def visit_AsyncFunctionDef(self, node):
-        raise Unsupported('async def')
+        # header (decorators, defaults, annotations) is evaluated like that of a def; the body only runs when the coroutine
+        # is driven, which generated programs never do - await / async for / async with inside stay unsupported
+        return self.visit_FunctionDef(node)
 
     def visit_ClassDef(self, node):
         if getattr(node, 'type_params', None):
